@@ -118,12 +118,43 @@ def rt (req : Json) : Except String Json := do
     | o => throw s!"unknown op {o}"
   pure (Json.mkObj [("rt", match r with | none => .null | some ws => Json.arr (ws.map valToJson).toArray)])
 
+/-- Bodies for the `loopRun` correspondence: `conds[i]` is the condition iteration `i` returns.
+    "id": carried values unchanged, scan slice = the carried value;
+    "double": first axis doubled (Concat(v, v)), scan slice = a scalar int64. -/
+def bodyOf (kind : String) (conds : List Bool) : Body := fun i vs =>
+  let c := conds.getD i true
+  match kind with
+  | "id" => some (c, vs, vs)
+  | "double" =>
+    some (c, vs.map (fun v => ⟨v.e, match v.s with | n :: r => (2 * n) :: r | [] => []⟩), [⟨.i64, []⟩])
+  | _ => none
+
+/-- Column `j` of the per-iteration scan slices. -/
+def column (scs : List (List RtVal)) (j : Nat) : List RtVal := scs.filterMap (fun row => row[j]?)
+
+def looprun (req : Json) : Except String Json := do
+  let kind ← req.getObjValAs? String "body"
+  let m ← req.getObjValAs? Nat "M"
+  let c0 ← req.getObjValAs? Bool "c0"
+  let conds ← req.getObjValAs? (List Bool) "conds"
+  let arr ← req.getObjValAs? (Array Json) "v0"
+  let v0 ← arr.toList.mapM valOfJson
+  match loopRun (bodyOf kind conds) m 0 c0 v0 with
+  | none => pure (Json.mkObj [("run", .null)])
+  | some (fin, scs) =>
+    let ncols := (scs.head?.map List.length).getD 0
+    let scans := (List.range ncols).map (fun j => match stackScan (column scs j) with
+      | some w => valToJson w | none => .null)
+    pure (Json.mkObj [("run", Json.mkObj [("final", Json.arr (fin.map valToJson).toArray),
+      ("iterations", toJson scs.length), ("scans", Json.arr scans.toArray)])])
+
 def handle (req : Json) : Json :=
   match (do
     let k ← req.getObjValAs? String "k"
     match k with
     | "infer" => infer req
     | "rt" => rt req
+    | "looprun" => looprun req
     | "loop" => do
       let A ← tys req "A"; let R ← tys req "R"; let S ← tys req "S"
       let pinned := (req.getObjValAs? Bool "pinned").toOption.getD false
